@@ -7,5 +7,6 @@ CONSTANTS
   MaxFail = 2
   AllowOk = TRUE
   StopInRetry = TRUE
+  Relay = FALSE
   RecordHist = FALSE
 PROPERTIES CancelEnds StopEnds FeedCloseEnds
